@@ -1,5 +1,5 @@
 SPECIFICATION Spec
-CONSTANT NCat = 52
+CONSTANT NCat = 55
 CONSTANT MaxLayer = 5
 CONSTRAINT Emit
 CHECK_DEADLOCK FALSE
